@@ -11,3 +11,7 @@ open Nanite.C05
 #print axioms c05_plateau_grid_last
 #print axioms c05_plateau_grid_monotone
 #print axioms c05_plateau_lower_bound
+#print axioms lmin_spec
+#print axioms lmax_spec
+#print axioms select_mem
+#print axioms c05_xmin_xmax_extreme
